@@ -1,4 +1,4 @@
-"""C12 - deterministic, memcpy-copyable, reset-equivalent state."""
+"""C12 - codec state is deterministic, memcpy-copyable and reset-equivalent."""
 from ..runner import Job
 
 W = 16
@@ -6,8 +6,36 @@ W = 16
 
 def jobs(tier):
     q = tier == "quick"
-    return [Job("c12_state", "flt-asan", "random", workers=W, cases=500 if q else 12000, maxtime=60 if q else 600)]
+    return [Job("c12_state", "flt-asan", "random", workers=W, cases=350 if q else 9000, maxtime=90 if q else 900)]
 
 
-PROP = dict(jobs=jobs, rule="wip", required_labels={"any": {}}, exhaustive_parts={}, assumptions=[])
-TEXT = dict(technique="wip", level="wip", note="wip")
+PROP = dict(
+    jobs=jobs,
+    rule="a case is (experiment in {determinism, clone, reset}, object kind in {encoder, decoder, multistream encoder incl. surround, "
+         "multistream decoder, projection encoder, projection decoder}, RTCD cap, configuration, history of encode/decode/loss/FEC/ctl "
+         "steps, copy or reset point). Non-trivial = at least 3 coding steps before and 3 after the copy/reset point (6 in total for "
+         "determinism) and the packets of the history change mode or bandwidth at least once; distinct = hash of (experiment, kind, "
+         "configuration, step sequence with request values, durations and signal families).",
+    required_labels={"any": {
+        "c12_state/exp:determinism": 300, "c12_state/exp:clone": 300, "c12_state/exp:reset": 300, "c12_state/cloned": 300,
+        "c12_state/reset-done": 250, "c12_state/plc-step": 60, "c12_state/fec-step": 15, "c12_state/mode-or-bandwidth-change": 300,
+        "c12_state/kind:enc": 100, "c12_state/kind:dec": 100, "c12_state/kind:ms-enc": 100, "c12_state/kind:ms-dec": 100,
+        "c12_state/kind:proj-enc": 100, "c12_state/kind:proj-dec": 100,
+        "c12_state/arch-cap:0": 50, "c12_state/arch-cap:1": 50, "c12_state/arch-cap:2": 50, "c12_state/arch-cap:3": 50,
+        "c12_state/arch-cap:4": 50, "c12_state/arch-cap:255": 100,
+    }},
+    exhaustive_parts={},
+    assumptions=[
+        "Twins receive bit-identical input and the same RTCD cap (opus_verif_arch_cap, set before the objects are initialised); equality across different RTCD levels is C15's claim.",
+        "Objects live in caller memory of exactly *_get_size() bytes (exact-size heap blocks under ASan), initialised with *_init(); the clone is made with memcpy of exactly that size and the original block is overwritten and freed, so any pointer into the old block or read beyond the reported size is a sanitizer error.",
+        "Poison patterns tried: 0x00, 0xFF, 0xA5 and pseudo-random bytes for the state memory, two different stack scribbles before each twin's step, unrelated encoders/decoders created, used and destroyed between the twins' steps. A read of uninitialised state that none of these patterns exposes is not detected (no MSan build in this environment).",
+        "RESET twin: the fresh object receives the settings in force through the public ctl interface in a fixed order; the application is fixed at creation; only legal setting values are used (validation is C11).",
+        "Known finding F2 (encoder OPUS_RESET_STATE keeps voice_ratio, silk_mode.LBRR_coded, silk_mode.allowBandwidthSwitch and the MDCT prediction flags) is excluded exactly: the state prefix is inspected at the reset point (never by the oracle); a set LBRR flag turns FEC off after the reset, the first frame after a reset is never digital silence, and a set bandwidth-switch permission or non-initial prediction flags skip the reset comparison. C11's finding F15 (forced channels overwritten by multi-frame packets) is avoided before the reset.",
+    ],
+)
+
+TEXT = dict(
+    technique="metamorphic twin testing over generated call histories: determinism twins in differently poisoned caller memory with unrelated activity in between, memcpy clone versus reference twin with the original destroyed, OPUS_RESET_STATE versus a fresh object configured through the public interface; ASan red zones bound the state size",
+    level="Exploration: byte-identical packets / bit-identical PCM and final ranges are required at every step after the copy or reset point for encoders, decoders, multistream (plain, surround, ambisonics) and projection objects at every RTCD cap 0..4 and uncapped; sampled histories of up to 24 steps with loss, FEC, mode, bandwidth, channel and rate changes.",
+    note="Trusted: the harness feeds both twins identical data (signals regenerated from seeds), ASan/UBSan, the RFC TOC reader used only for labelling. The optional MSan add-on of the design is not built.",
+)
